@@ -68,6 +68,7 @@ class World:
         self.events_fired = 0
         self.interrupt_at = None  # simulated instant at which the next blocking wait is interrupted
         self.interrupt_class = InjectedInterrupt
+        self.disk_full = False  # while True, every write / flush through a wrapper's temp-file handle fails with ENOSPC
 
     # ---- discrete-event time ---------------------------------------------------------------
     def after(self, at, fn):
@@ -311,6 +312,80 @@ class SimPopen:
             self.terminate()
 
 
+class SimTempFile:
+    """What a wrapper gets from NamedTemporaryFile(): the real temporary file behind a thin proxy that lets the
+    simulator fill the disk. While `world.disk_full` is set, write() and flush() through the handle fail with ENOSPC;
+    data that could not be written stays pending, and close() then behaves like a buffered file on a full device
+    (checked against /dev/full): it raises ENOSPC once and the file is closed all the same."""
+
+    def __init__(self, real, world):
+        object.__setattr__(self, "_f", real)
+        object.__setattr__(self, "_w", world)
+        object.__setattr__(self, "_pending", False)
+
+    def _enospc(self):
+        self._w.stats["fault:disk-full-write"] += 1
+        object.__setattr__(self, "_pending", True)
+        raise OSError(errno.ENOSPC, "No space left on device")
+
+    def write(self, data):
+        if self._w.disk_full:
+            self._enospc()
+        return self._f.write(data)
+
+    def writelines(self, lines):
+        if self._w.disk_full:
+            self._enospc()
+        return self._f.writelines(lines)
+
+    def flush(self):
+        if self._w.disk_full or self._pending:
+            self._enospc()
+        return self._f.flush()
+
+    def close(self):
+        if self._pending:
+            object.__setattr__(self, "_pending", False)
+            self._f.close()
+            self._w.stats["sim:close-with-unwritten-data"] += 1
+            raise OSError(errno.ENOSPC, "No space left on device")
+        return self._f.close()
+
+    def __getattr__(self, name):
+        return getattr(self._f, name)
+
+    def __setattr__(self, name, value):
+        setattr(self._f, name, value)
+
+    def __iter__(self):
+        return iter(self._f)
+
+    def __enter__(self):
+        self._f.__enter__()
+        return self
+
+    def __exit__(self, *a):
+        return self._f.__exit__(*a)
+
+
+def install_tempfile_seam(world):
+    """Rebind the NamedTemporaryFile name the MSA wrapper modules imported; returns what remove_tempfile_seam() needs."""
+    import importlib
+
+    saved = []
+    for modname in ("biotite.application.msaapp", "biotite.application.clustalo.app", "biotite.application.muscle.app3"):
+        m = importlib.import_module(modname)
+        real = m.NamedTemporaryFile
+        saved.append((m, real))
+        m.NamedTemporaryFile = (lambda real: (lambda *a, **k: SimTempFile(real(*a, **k), world)))(real)
+    return saved
+
+
+def remove_tempfile_seam(saved):
+    for m, real in saved:
+        m.NamedTemporaryFile = real
+
+
 class SubprocessShim:
     """Stands in for the `subprocess` module inside biotite.application.localapp (only get_version uses it)."""
 
@@ -351,6 +426,8 @@ class Seams:
         self.saved = (appmod.time, localmod.Popen, localmod.subprocess, tempfile.tempdir,
                       tempfile._name_sequence, os.getcwd())
         appmod.time = VClock(self.world)
+        # the temporary files of the MSA wrappers are real; the handle goes through SimTempFile (full-disk fault)
+        self.ntf_saved = install_tempfile_seam(self.world)
         localmod.Popen = SimPopen
         localmod.subprocess = SubprocessShim(self.world)
         SimPopen.world = self.world
@@ -365,6 +442,7 @@ class Seams:
         import biotite.application.localapp as localmod
 
         appmod.time, localmod.Popen, localmod.subprocess, tempfile.tempdir, tempfile._name_sequence, cwd = self.saved
+        remove_tempfile_seam(getattr(self, "ntf_saved", []))
         SimPopen.world = None
         try:
             os.chdir(cwd)
